@@ -105,21 +105,21 @@ def numbers_md(sec):
   {distinct} distinct rules (§4b; rules shared between properties are listed with
   each), {obl} obligations on the current tree (thorough tier, three
   configurations merged). Quick = one configuration (≈1–2 s per property),
-  thorough = three configurations (linux/amd64, `GOARCH=386`, `-tags=verif`;
-  ≈3 s). `not_applicable` is empty: every property has at least one clause in
+  thorough = three configurations (linux/amd64, `GOARCH=386`, `-tags=verif`)
+  plus the fault witnesses of §2.4 (≈10–60 s). `not_applicable` is empty: every property has at least one clause in
   reach; what is *not* decided is named per property in §5 and in each check's
   `level_note`.
-* **Genuine defects**: {nfixed + 2} found (24 while reading for the design, the others
+* **Genuine defects**: {nfixed + 3} found (24 while reading for the design, the others
   while building or through sub-agents that noticed existing behaviour while
   they looked for places to seed a change). {nfixed} are repaired, each by one minimal
   `fix:` commit in `/repo` (the unedited suite passes after each), and recorded
-  as `fixed` lines in `known_findings.jsonl`; 2 (D9, D16; {nknown} constructs) are
-  recorded as known findings because the repair is not small (D9) or lives in
+  as `fixed` lines in `known_findings.jsonl`; 3 (D9, D16, D42; {nknown} constructs) are
+  recorded as known findings because the repair is not small (D9, D42) or lives in
   the dependency (D16). §3.
 * **Validation of the analyser** (`selftest.sh`, not a registered command):
   unchanged tree silent for all 20; {nmut} hand-written mutants (incl. combined
   ones: a behaviour-preserving refactoring plus one broken instance);
-  {len(metas)} changes seeded by sub-agents that saw only a property's text, in three
+  {len(metas)} changes seeded by sub-agents that saw only a property's text, in five
   rounds ({st('detected')} detected, {st('undecided')} undecided, {st('missed')} missed); {nrev} reverted `fix:` commits
   reported again; {nben} behaviour-preserving patches x 20 properties without an
   alarm. §10."""
